@@ -15,9 +15,9 @@ C04 — property theorems: the ARPA address codec of `netutil/reversed.go`.
   of every address, with or without one trailing dot, decodes to that address.
 * `decode_canon`, `canonPTR_injective`: the decoder inverts the encoder on the canonical name
   itself, so distinct canonical addresses have distinct names (the bijection of the title).
-* `accepted_names_unique`, `accepted_name_determines_addr_partial`: an address has at most one
-  accepted name modulo ASCII case and one trailing dot (unconditional), and such a name
-  determines the address (non-mapped results).
+* `accepted_names_unique`, `accepted_name_determines_addr`, `decode_nibbles`: an address has at
+  most one accepted name modulo ASCII case and one trailing dot, and such a name determines
+  the address — both unconditional (IPv4-mapped results included, every `idna.ToASCII`).
 * `ipFromReversedAddr_total`: no input and no `idna.ToASCII` make the decoder panic; every
   rejection is an ARPA `*AddrError` carrying the trimmed input.
 -/
@@ -236,20 +236,53 @@ theorem accepted_names_unique (toASCII : Bytes → Option Bytes) (s s' : Bytes) 
   rcases accepts_spelling toASCII s' _ h' with ⟨b', he, _, _, hs'⟩ | ⟨b', he, _, _, hs'⟩ <;>
   cases he <;> rw [hs, hs']
 
-/-- Conversely, for results that are not IPv4-mapped IPv6 addresses: two accepted inputs that
-are equal modulo ASCII case and one trailing dot decode to the same address (partial: the
-IPv4-mapped case would need the injectivity of the nibble spelling on mapped addresses,
-which `canonPTR`, mapping them to the IPv4 name, does not express). -/
-theorem accepted_name_determines_addr_partial (toASCII : Bytes → Option Bytes) (s s' : Bytes)
+/-- Under IDNA-1 every ASCII case variant of the 32-nibble `ip6.arpa` spelling of sixteen
+bytes decodes to exactly those sixteen bytes — IPv4-mapped ones included (this is the
+behaviour behind the known finding: no unmapping on the way in). -/
+theorem decode_nibbles (toASCII : Bytes → Option Bytes)
+    (hT : ∀ s, (∀ b ∈ s, b < 128) → NoXnLabel s → toASCII s = some s)
+    (b : List Nat) (hl : b.length = 16) (hb : ∀ x ∈ b, x < 256)
+    (v : Bytes) (hv' : asciiLower v = ptr6 b) (dot : Bytes) (hd : dot = [] ∨ dot = [46]) :
+    ipFromReversedAddr toASCII (v ++ dot) = .ok (.ok (.v6 b [])) := by
+  have hlab := ptr6_labels b
+  have htrim : trimSuffix (v ++ dot) [46] = v :=
+    trim_variant v _ dot (hv'.trans (hlab.trans (joinDot_arpa _ (by simp [labels6])))) hd
+  have hvalid : validateDomainName toASCII (trimSuffix (v ++ dot) [46]) = .ok none := by
+    rw [htrim]
+    refine domain_ok_of_labels toASCII hT v _ (hv'.trans hlab) (good_labels6 b hb) ?_
+    rw [← hlab, ptr6_length, hl]; decide
+  rw [fromRev_of_valid toASCII _ hvalid, htrim]
+  exact body_ptr6 v b hl hb hv'
+
+/-- **The accepted name determines the address — unconditionally** (IPv4-mapped results
+included, every `idna.ToASCII`): two accepted inputs that are equal modulo ASCII case and one
+trailing dot decode to the same address.  With `accepted_names_unique` the decoder is, on
+what it accepts, a bijection between names modulo case/dot and addresses. -/
+theorem accepted_name_determines_addr (toASCII : Bytes → Option Bytes) (s s' : Bytes)
     (a a' : Addr)
     (h : ipFromReversedAddr toASCII s = .ok (.ok a))
     (h' : ipFromReversedAddr toASCII s' = .ok (.ok a'))
-    (hm : ∀ b z, a = .v6 b z → ¬ is4in6 b) (hm' : ∀ b z, a' = .v6 b z → ¬ is4in6 b)
     (hs : asciiLower (trimSuffix s [46]) = asciiLower (trimSuffix s' [46])) : a = a' := by
-  obtain ⟨h1, hwf, hz⟩ := accepts_only_canon_partial toASCII s a h hm
-  obtain ⟨h1', hwf', hz'⟩ := accepts_only_canon_partial toASCII s' a' h' hm'
-  exact canonPTR_injective a a' hwf hwf' (fun b z he => ⟨hz b z he, hm b z he⟩)
-    (fun b z he => ⟨hz' b z he, hm' b z he⟩) (by rw [← h1, ← h1', hs])
+  have hT : ∀ s : Bytes, (∀ b ∈ s, b < 128) → NoXnLabel s → (some : Bytes → Option Bytes) s = some s :=
+    fun _ _ _ => rfl
+  have d4 : ∀ b : List Nat, b.length = 4 → (∀ x ∈ b, x < 256) →
+      ipFromReversedAddr some (ptr4 b) = .ok (.ok (.v4 b)) := fun b hl hb => by
+    simpa using decode_encode some hT (.v4 b) ⟨hl, hb⟩ (fun _ _ he => by cases he) (ptr4 b)
+      (canonPTR_lower (.v4 b)) [] (Or.inl rfl)
+  have d6 : ∀ b : List Nat, b.length = 16 → (∀ x ∈ b, x < 256) →
+      ipFromReversedAddr some (ptr6 b) = .ok (.ok (.v6 b [])) := fun b hl hb => by
+    simpa using decode_nibbles some hT b hl hb (ptr6 b)
+      (asciiLower_of_no_upper _ (ptr6_not_upper b)) [] (Or.inl rfl)
+  rcases accepts_spelling toASCII s a h with ⟨b, rfl, hl, hb, e⟩ | ⟨b, rfl, hl, hb, e⟩ <;>
+  rcases accepts_spelling toASCII s' a' h' with ⟨b', rfl, hl', hb', e'⟩ | ⟨b', rfl, hl', hb', e'⟩
+  · have := d4 b hl hb; rw [← e, hs, e', d4 b' hl' hb'] at this
+    injection this with this; injection this with this; exact this.symm
+  · have := d4 b hl hb; rw [← e, hs, e', d6 b' hl' hb'] at this
+    injection this with this; injection this with this; cases this
+  · have := d6 b hl hb; rw [← e, hs, e', d4 b' hl' hb'] at this
+    injection this with this; injection this with this; cases this
+  · have := d6 b hl hb; rw [← e, hs, e', d6 b' hl' hb'] at this
+    injection this with this; injection this with this; exact this.symm
 
 /-! ### 4. totality and the shape of rejections -/
 
